@@ -16,7 +16,7 @@ from cassandra import OperationTimedOut
 META = dict(
     level='model_checking',
     level_text='bounded histories with silent / late / failing servers through the real ResponseFuture timer logic on a virtual clock: every event order, response kind and retry decision is a forked symbolic choice; the invariant "an unfinished execution always has a wake-up scheduled no later than start+timeout" is decided on every path, for the first page and for later pages',
-    level_note='task-level schedules; timers are the harness reactor (fire at their deadline, in deadline order); plans finite',
+    level_note='task-level schedules; plus, in the *-race jobs, one pre-emption by another thread (a response, a timer, a queued task or a connection failure) at any lock acquire/release reached while the running thread holds no lock; timers are the harness reactor (fire at their deadline, in deadline order); plans finite',
     technique='symbolic execution (sx proxies) of the real ResponseFuture timer/timeout path over solver-enumerated histories + z3 validity per path',
     bounds=dict(quick='3 hosts, timeout 10 s, speculative executions 0..2 (delay 1 s), <= 4 events + following the timer chain; one later page',
                 thorough='<= 6 events, 2 later pages'),
@@ -62,10 +62,14 @@ def _follow_timers(V, run, start, label):
                 note='finished at +%.3f s' % (run.world.w.clock - start))
 
 
-def h_first_page(V, steps=4, spec=0):
+def h_first_page(V, steps=4, spec=0, race=False):
     run = Run(V, n_hosts=3, responses=('read_timeout', 'unavailable'), decisions=(RETRY, NEXT), levels=(None,),
               spec_attempts=spec, idempotent=spec > 0, allow_defunct=True, max_policy_calls=2, timeout=10.0)
     start = run.start
+    if race:
+        # at any lock acquire/release while no lock is held, another thread delivers a response, fires a timer,
+        # runs a queued task or fails a connection; the liveness condition is evaluated once both have finished
+        rfhist.arm_race(V, run)
     run.rf.send_request()
     _liveness(V, run, start, 'unfinished-execution-has-a-wake-up-before-the-deadline')
     for i in range(steps):
@@ -109,4 +113,6 @@ def jobs(tier):
     for spec in (0, 1, 2):
         js.append(Job('first-page-spec%d' % spec, 'h_first_page', dict(steps=6 if th else 4, spec=spec), o))
         js.append(Job('next-page-spec%d' % spec, 'h_next_page', dict(pages=2 if th else 1, spec=spec), o))
+    for spec in (0, 1):
+        js.append(Job('first-page-race-spec%d' % spec, 'h_first_page', dict(steps=4 if th else 3, spec=spec, race=True), o))
     return js
